@@ -195,6 +195,13 @@ class PanicTable:
         return None
 
 
+def justify(ent):
+    """`assert(allowed_when)` before a documented panic: the panic may only be raised for its documented reason."""
+    if not ent.get('allowed_when'):
+        return ''
+    return 'proof { assert(%s); /* PANIC-JUSTIFIED */ //~ %s\n } ' % (ent['allowed_when'], ' '.join(ent.get('props', [])))
+
+
 def enclosing_fn_name(msk, pos):
     best = None
     for m in re.finditer(r'\bfn\s+(\w+)', msk[:pos]):
@@ -240,7 +247,7 @@ def rule_debug_assert(text, cfg, relpath, table, log):
             continue
         ent = table.lookup(relpath, fn, 'debug_assert', cond + ' ' + ' '.join(rest))
         if ent is not None:
-            rep = 'if !(%s) { gecs_panic("%s"); }' % (cond, ent['msg'])
+            rep = 'if !(%s) { %sgecs_panic("%s"); }' % (cond, justify(ent), ent['msg'])
             out_edits.append((m.start(), end - m.start(), rep + nl))
             log.rule('R-panic', 'debug_assert -> documented panic "%s" in %s' % (ent['msg'], fn))
         else:
@@ -260,7 +267,9 @@ def rule_panic(text, relpath, table, log):
         ent = table.lookup(relpath, fn, 'panic', args)
         nl = '\n' * text[m.start():close + 1].count('\n')
         if ent is not None:
-            edits.append((m.start(), close + 1 - m.start(), 'gecs_panic("%s")%s' % (ent['msg'], nl)))
+            j = justify(ent)
+            rep = ('{ %sgecs_panic("%s") }' % (j, ent['msg'])) if j else 'gecs_panic("%s")' % ent['msg']
+            edits.append((m.start(), close + 1 - m.start(), rep + nl))
             log.rule('R-panic', 'panic! -> documented panic "%s" in %s' % (ent['msg'], fn))
         else:
             log.rule('R-panic-kept', 'panic! kept as an unreachability obligation in %s' % fn)
